@@ -870,3 +870,86 @@ func ruleC17_6(c *Ctx) {
 		c.bad(R, fname(f), "backslash handling", f.Pos(), "scanChunk does not look for backslash escapes")
 	}
 }
+
+// R-C17-7: in match the name is consumed only in two ways: it becomes matchChunk's rest, or the star scan retries
+// matchChunk on name[i+1:] for every byte offset i < len(name). Any other slicing of the name (computed jumps) is an
+// unknown shortcut.
+func init() {
+	if p := registry["C17"]; p != nil {
+		p.Rules = append(p.Rules, Rule{ID: "R-C17-7", Doc: "the star scan tries every byte offset; the name is not sliced otherwise", Min: 2, Run: ruleC17_7})
+		p.Explanation += " (R-C17-7) in match the name is only replaced by matchChunk's rest or re-sliced as name[i+1:] with i running over all byte offsets below len(name); a computed jump into the name is an unknown shortcut."
+	}
+}
+
+func ruleC17_7(c *Ctx) {
+	const R = "R-C17-7"
+	f := c.lookup("in_toto.match")
+	if f == nil {
+		c.undecided(R, "in_toto.match", "anchor", 0, "not found")
+		return
+	}
+	n := 0
+	for _, b := range f.Blocks {
+		for _, in := range b.Instrs {
+			sl, ok := in.(*ssa.Slice)
+			if !ok || typeStr(sl.X.Type()) != "string" {
+				continue
+			}
+			// only slices of the name (parameter 1 or phis named name)
+			isName := derives(sl.X, func(v ssa.Value) bool { return v == ssa.Value(f.Params[1]) }, false)
+			if ph, isPhi := sl.X.(*ssa.Phi); isPhi && ph.Comment == "name" {
+				isName = true
+			}
+			if !isName {
+				continue
+			}
+			n++
+			okScan := false
+			if sl.High == nil && sl.Low != nil {
+				// Low = i + k, i = s, s+1, ... with s + k == 1 and the last offset tried being len(name)
+				var ph *ssa.Phi
+				k := int64(0)
+				if bo, isBo := sl.Low.(*ssa.BinOp); isBo && bo.Op == token.ADD {
+					if kk, isK := constInt(bo.Y); isK {
+						ph, _ = bo.X.(*ssa.Phi)
+						k = kk
+					}
+				} else {
+					ph, _ = sl.Low.(*ssa.Phi)
+				}
+				if ph != nil {
+					step, start := true, int64(-99)
+					for _, e := range ph.Edges {
+						if k0, isC := constInt(e); isC {
+							start = k0
+							continue
+						}
+						if inc, isInc := e.(*ssa.BinOp); isInc && inc.Op == token.ADD && inc.X == ssa.Value(ph) {
+							if k1, isC := constInt(inc.Y); isC && k1 == 1 {
+								continue
+							}
+						}
+						step = false
+					}
+					bound := false
+					switch k {
+					case 1:
+						bound = c.varBelowLen(f, ph, sl.X, sl.Block(), 0) // i < len(name)
+					case 0:
+						bound = c.varAtMostLen(f, ph, sl.X, sl.Block()) // i <= len(name)
+					}
+					okScan = step && start+k == 1 && bound
+				}
+			}
+			// the slice feeds matchChunk
+			feeds := false
+			for _, r := range *sl.Referrers() {
+				if call, isCall := r.(ssa.CallInstruction); isCall && calleeName(call) == "in_toto.matchChunk" {
+					feeds = true
+				}
+			}
+			c.check(okScan && feeds, R, fname(f), "name re-sliced as name[i+1:] for every byte offset of the star scan", sl.Pos(), "i = 0,1,...,len(name)-1; matchChunk(chunk, name[i+1:])", "the name is sliced with a computed offset (not the exhaustive byte-wise star scan): positions inside multi-byte characters or skipped candidates change what '*' matches")
+		}
+	}
+	c.check(n == 1, R, fname(f), "exactly one place slices the name", f.Pos(), "the star scan", fmt.Sprintf("%d slice expressions on the name", n))
+}
